@@ -15,19 +15,26 @@ C13 = ["Pairs", "PairsFunc", "Windowed", "WindowedFunc", "Chunk", "ChunkFunc"]
 # (property, Gen module, theorem name, what it mirrors, filter: None | list of names kept | ("not", names dropped))
 TABLE = [
     ("C01", "AvlShapes", "gen_shapes_avl", "avl/avl.go (Model/Avl.lean mirrors it function by function)", None),
+    ("C01", "UtilShapes", "gen_shapes_dep_compare", "util.go, Compare (the comparator of avl.NewOrdered) - a DEPENDENCY of the tree", ["Compare"]),
+    ("C01", "MathShapes", "gen_shapes_dep_max", "math.go, Max (used by calcHeight) - a DEPENDENCY of the tree", ["Max"]),
     ("C03", "MapSetShapes", "gen_shapes_map_set", "maps/set.go", None),
     ("C03", "SetsShapes", "gen_shapes_sets", "sets/sets.go", None),
     ("C03", "SyncSetShapes", "gen_shapes_sync_set", "sync2/set.go", None),
     ("C06", "ListShapes", "gen_shapes_list", "lists/list.go", None),
     ("C06", "RingShapes", "gen_shapes_ring", "lists/ring.go", None),
     ("C07", "SortedShapes", "gen_shapes_sorted", "slices/sorted.go", None),
+    ("C07", "SlicesShapes", "gen_shapes_dep_insert_remove", "slices/slices.go, Insert and Remove - DEPENDENCIES of Sorted.Add / Remove / RemoveAt", ["Insert", "Remove"]),
     ("C08", "Array2DShapes", "gen_shapes_array2d", "arrays/array2d.go", None),
+    ("C10", "ChanShapes", "gen_shapes_dep_sendtimeout", "chans/chans.go, SendTimeout - the DEPENDENCY of PubSub.send", ["SendTimeout"]),
     ("C11", "BimapShapes", "gen_shapes_bimap", "maps/bimap.go", None),
+    ("C11", "MapsShapes", "gen_shapes_dep_maps", "maps/maps.go, Clear and Clone - DEPENDENCIES of Bimap.Clear / Clone", ["Clear", "Clone"]),
     ("C12", "SlicesShapes", "gen_shapes_splice", "slices/slices.go, the splicing helpers", C12),
     ("C12", "SortShapes", "gen_shapes_reverse", "slices/sort.go, Reverse", ["Reverse"]),
     ("C13", "SlicesShapes", "gen_shapes_partition", "slices/slices.go, Chunk / Windowed / Pairs", C13),
     ("C14", "SlicesShapes", "gen_shapes_functional", "slices/slices.go, the functional helpers", ("not", C12 + C13)),
     ("C14", "MapsShapes", "gen_shapes_maps", "maps/maps.go", None),
+    ("C14", "MapSetShapes", "gen_shapes_dep_set", "maps/set.go, NewSetFromSlice / Set.Add / Set.Has - DEPENDENCIES of Except / ExceptSet", ["NewSetFromSlice", "Set.Add", "Set.Has"]),
+    ("C16", "ListShapes", "gen_shapes_dep_list", "lists/list.go - the List under Queue (a DEPENDENCY)", None),
     ("C15", "SortShapes", "gen_shapes_sort", "slices/sort.go", ("not", ["Reverse"])),
     ("C17", "OnceShapes", "gen_shapes_once", "sync2/once.go", None),
     ("C19", "ChanShapes", "gen_shapes_chans", "chans/chans.go", None),
